@@ -161,3 +161,57 @@ Definition ss_phase_fields (ts : list fterm) : list string :=
 
 Definition copies_all_phase_fields (ts : list fterm) (comp : string) (s : stmt) : bool :=
   forallb (fun f => always_copies ("x.phase." ++ f) (comp ++ "." ++ f) s) (ss_phase_fields ts).
+
+(* ---- call order inside model(): precipitate_only amounts must be inert (set_inert_moles) whenever a solver is entered
+   (model_pz(), model_sit(), or falling through to the main iteration loop) and must have been given back
+   (unset_inert_moles) at every return.  A path analysis of the regenerated statements; every path is followed. *)
+Fixpoint expr_uses (vs : list string) (x : expr) : bool :=
+  match x with
+  | EVar v => mem_str v vs
+  | ENum _ => false
+  | EAdd a b | ESub a b | EMul a b | EDiv a b | EFun2 _ a b => expr_uses vs a || expr_uses vs b
+  | ENeg a | EAbs a | EFun1 _ a => expr_uses vs a
+  end.
+
+Fixpoint cond_uses (vs : list string) (c : cond) : bool :=
+  match c with
+  | CLt a b | CLe a b | CGt a b | CGe a b | CEq a b | CNe a b => expr_uses vs a || expr_uses vs b
+  | CAnd c d | COr c d => cond_uses vs c || cond_uses vs d
+  | CNot c => cond_uses vs c
+  | CNz a => expr_uses vs a
+  | CEqual a b e => expr_uses vs a || expr_uses vs b || expr_uses vs e
+  end.
+
+Fixpoint stmt_uses (vs : list string) (s : stmt) : bool :=
+  match s with
+  | SSeq a b => stmt_uses vs a || stmt_uses vs b
+  | SIf c a b => cond_uses vs c || stmt_uses vs a || stmt_uses vs b
+  | SAssign _ x | SReturn x => expr_uses vs x
+  | SLoop a => stmt_uses vs a
+  | _ => false
+  end.
+
+Inductive order_res : Type := OViolation | OFalls (inert : bool) | OReturned.
+
+Definition solver_entries : list string := ["model_pz()"; "model_sit()"].
+
+Fixpoint call_order (s : stmt) (inert : bool) : order_res :=
+  match s with
+  | SSkip | SBreak | SContinue => OFalls inert
+  | SCall f => if String.eqb f "set_inert_moles" then OFalls true
+               else if String.eqb f "unset_inert_moles" then OFalls false else OFalls inert
+  | SAssign _ x => if expr_uses solver_entries x && negb inert then OViolation else OFalls inert
+  | SReturn x => if expr_uses solver_entries x || inert then OViolation else OReturned
+  | SLoop a => if stmt_uses solver_entries a && negb inert then OViolation else OFalls inert
+  | SSeq a b => match call_order a inert with
+                | OFalls i => call_order b i
+                | r => r
+                end
+  | SIf c a b =>
+      if cond_uses solver_entries c && negb inert then OViolation else
+      match call_order a inert, call_order b inert with
+      | OViolation, _ | _, OViolation => OViolation
+      | OReturned, r | r, OReturned => r
+      | OFalls i, OFalls j => if Bool.eqb i j then OFalls i else OViolation
+      end
+  end.
